@@ -50,7 +50,8 @@ function getPathAndLine (sourceMap, filename, line, column) {
   try {
     if (sourceMap) {
       const filePath = getFilePathFromName(filename)
-      const { originalSource, originalLine, originalColumn } = sourceMap.findEntry(line - 1, column - 1)
+      // line and column are 1-based; a missing column (0) means the beginning of the line
+      const { originalSource, originalLine, originalColumn } = sourceMap.findEntry(line - 1, Math.max(column - 1, 0))
       return {
         path: path.join(filePath, originalSource),
         line: originalLine + 1,
